@@ -49,6 +49,8 @@ def decDArg : Sx → Option DArg
   | _ => none
 
 def decOp : Sx → Option Op
+  | .list [.sym "fixCwd"] => some .fixCwd
+  | .list [.sym "extChdir", p] => do pure (.extChdir (← asNat p))
   | .list [.sym "cd", a, f] => do pure (.cd (← decCdArg a) (← asBool f))
   | .list [.sym "pushd", a, d] => do pure (.pushd (← decPArg a) (← asBool d))
   | .list [.sym "popd", a, d] => do pure (.popd (← decPArg a) (← asBool d))
